@@ -5,6 +5,7 @@ import (
 	"flag"
 	"fmt"
 	"io/ioutil"
+	"math"
 	"os"
 	"os/signal"
 	"regexp"
@@ -186,6 +187,11 @@ func validateFlags() []error {
 	// We limit qps to < 1000 to ensure we don't overload Spanner accidentally.
 	if *qps <= 0 || *qps > 1000 {
 		errs = append(errs, fmt.Errorf("qps must be 1 <= qps <= 1000, was %v", *qps))
+	}
+
+	if math.IsNaN(*qps) || (*qps > 0 && float64(time.Second) / *qps >= float64(math.MaxInt64)) {
+		// NaN passes both comparisons above; a tiny qps overflows the probe interval.
+		errs = append(errs, fmt.Errorf("qps %v does not give a valid probe interval", *qps))
 	}
 
 	if *numRows <= 0 {
